@@ -4,7 +4,7 @@ use shuttle_engine::runtime::task::clock::VectorClock;
 use shuttle_engine::runtime::task::TaskSignature;
 use shuttle_engine::runtime::thread::continuation::{ContinuationPool, CONTINUATION_POOL};
 use shuttle_engine::scheduler::{Scheduler, Task, TaskId};
-use shuttle_schedulers::{DfsScheduler, RandomScheduler};
+use shuttle_schedulers::{DfsScheduler, PctScheduler, RandomScheduler};
 use std::panic::{catch_unwind, AssertUnwindSafe, Location};
 
 pub fn make_tasks(n: usize) -> Vec<Task> {
@@ -126,12 +126,67 @@ fn run_random(seed: &str, iters: &str, calls: &str) -> String {
     out.join(",")
 }
 
+/// pct <seed> <depth> <iters> <calls>; calls: E | U | T:<ids>:<current|->:<yielding 0|1>.  A call that panics prints P
+/// and ends the case (the scheduler is not used after a panic).
+fn run_pct(seed: &str, depth: &str, iters: &str, calls: &str) -> String {
+    let made = catch_unwind(AssertUnwindSafe(|| {
+        PctScheduler::new_from_seed(seed.parse().unwrap(), depth.parse().unwrap(), iters.parse().unwrap())
+    }));
+    let Ok(mut sched) = made else { return "P".to_string() };
+    let tasks = make_tasks(64);
+    let mut out: Vec<String> = Vec::new();
+    let mut prev: Option<usize> = None;
+    for c in crate::split_list(calls, ',') {
+        if c == "E" {
+            prev = None;
+        }
+        let r = catch_unwind(AssertUnwindSafe(|| {
+            if c == "E" {
+                match sched.new_execution() {
+                    None => "eN".to_string(),
+                    Some(s) => format!("e{}", s.seed),
+                }
+            } else if c == "U" {
+                format!("u{}", sched.next_u64())
+            } else {
+                let f: Vec<&str> = c.split(':').collect();
+                let ids: Vec<usize> = f[1].split('.').map(|x| x.parse().unwrap()).collect();
+                // `c` = the task chosen by the previous decision of this execution
+                let cur = match f[2] {
+                    "-" => None,
+                    "c" => prev.map(TaskId::from),
+                    x => Some(TaskId::from(x.parse::<usize>().unwrap())),
+                };
+                let refs: Vec<&Task> = ids.iter().map(|i| &tasks[*i]).collect();
+                match sched.next_task(&refs, cur, f[3] == "1") {
+                    Some(t) => format!("t{}", usize::from(t)),
+                    None => "x".to_string(),
+                }
+            }
+        }));
+        match r {
+            Ok(s) => {
+                if let Some(t) = s.strip_prefix('t') {
+                    prev = t.parse().ok();
+                }
+                out.push(s)
+            }
+            Err(_) => {
+                out.push("P".to_string());
+                break;
+            }
+        }
+    }
+    out.join(",")
+}
+
 pub fn run(words: &[&str]) -> String {
     let words: Vec<String> = words.iter().map(|s| s.to_string()).collect();
     let res = catch_unwind(AssertUnwindSafe(|| {
         CONTINUATION_POOL.set(&ContinuationPool::new(), || match &words[..] {
             [k, mi, bound, tree] if k == "dfs" => run_dfs(mi, bound, tree),
             [k, seed, iters, calls] if k == "random" => run_random(seed, iters, calls),
+            [k, seed, depth, iters, calls] if k == "pct" => run_pct(seed, depth, iters, calls),
             _ => "ERR bad case".to_string(),
         })
     }));
